@@ -133,3 +133,28 @@ Theorem responder_auth_refuted_without_validation :
   exists B b F, fst (responder false B b LowOrder F (Some true)) = Some 1001 /\
                 F = AuthF Zero Zero nonce_auth 1001 Ed25519 1001 Zero /\ ~ mentions b Zero.
 Proof. exists 1002, 7, (AuthF Zero Zero nonce_auth 1001 Ed25519 1001 Zero). cbn. auto. Qed.
+
+(* ---------- the contact request recorded after the handshake ---------- *)
+
+(* a contact request is recorded only for the key the handshake of THIS session proved, named by
+   the card itself; never for the account's own key *)
+Theorem incoming_records_authenticated self B b X F ack c A :
+  incoming self (fst (responder true B b X F ack)) c = Some A ->
+  exists sent, responder true B b X F ack = (Some A, sent) /\ c = Card A true /\ A <> self.
+Proof.
+  destruct (responder true B b X F ack) as [hs sent] eqn:E. cbn [fst].
+  unfold incoming. destruct hs as [A'|]; [|discriminate].
+  destruct c as [pk ok|]; [|discriminate]. destruct ok; [|discriminate].
+  destruct (N.eqb_spec pk A') as [->|_]; [|discriminate].
+  destruct (N.eqb_spec A' self) as [->|Hne]; [discriminate|]. cbn.
+  intros H. inversion H; subst. exists sent. repeat split; congruence.
+Qed.
+
+Lemma incoming_card_mismatch self A pk ok : pk <> A -> incoming self (Some A) (Card pk ok) = None.
+Proof. intros H. unfold incoming. destruct ok; [|reflexivity]. destruct (N.eqb_spec pk A); [contradiction | reflexivity]. Qed.
+
+Lemma incoming_needs_handshake self c : incoming self None c = None.
+Proof. reflexivity. Qed.
+
+Lemma incoming_needs_wellformed_card self A pk : incoming self (Some A) (Card pk false) = None /\ incoming self (Some A) NoCard = None.
+Proof. split; reflexivity. Qed.
